@@ -1,8 +1,9 @@
-"""C18 -- valve segmentation: the structural clauses only.
+"""C18 -- valve segmentation: structural clauses, and the partition itself on a fixture family.
 
-That valve_segments computes THE partition induced by the valve layer on every multigraph is a fact about graph reachability through
-networkx at run time; it is not decided here (MANIFEST level_note says so).  Four clauses of the statement are visible in the shape of the
-code and are necessary for it:
+That valve_segments computes THE partition induced by the valve layer on EVERY multigraph is a fact about graph reachability through
+networkx at run time; it is decided here only on a finite family of fixture graphs (R-C18-6, T3: the parsed function is run by the in-house
+interpreter on real networkx multigraphs, pandas replaced by sa/minipandas.py, and compared with a union-find reference).  Beyond that, four
+clauses of the statement are visible in the shape of the code and are necessary for it:
 
 R-C18-1  every label handed out is positive: a fresh label is the counter AFTER an increment (the counter starts at 0), on every path;
 R-C18-2  the reported sizes count the members of the reported labelling: segment_size is computed from the value counts of the very two
@@ -34,9 +35,14 @@ EXPLANATION = (
     "result is keyed by the valve number; (R-C18-4) T2, symbolic path enumeration of the three criticality helpers: the stored value is 0 on the path where "
     "node-side and link-side labels are equal (that path is selected by a substring match on the path-condition text: `==`, node_segments[, link_segments[; "
     "first such test and last store only), and (AST match of call arguments against parameter names) valve_segment_attributes passes its arguments in each "
-    "helper's parameter order. The partition itself (reachability without passing a valve on every multigraph) is NOT decided.")
+    "helper's parameter order. (R-C18-6) T3, bounded: valve_segments interpreted (sa/concrete.py; real networkx graphs, pandas stand-ins of sa/minipandas.py) on 15 hand-made "
+    "and 24 pseudo-random small multigraphs (parallel and anti-parallel links, loops, several components, empty layer, duplicated rows, links valved at both ends, nodes valved on "
+    "every link): labels positive, blocks equal to the union-find partition induced by the valve layer, size table equal to the block counts. The partition on every multigraph "
+    "(reachability without passing a valve) is NOT decided beyond these fixtures. (R-C18-7) T3, bounded to the same fixtures: valve_segment_attributes interpreted on "
+    "layers whose index has gaps: num_surround = other non-bypassed valves with a side in one of the two segments, demand / length gain (D1 + D2)/max(D1, D2) - 1, zeros for a bypassed valve.")
 RULE_TEXT = "one instance = one label store, one size input, one row access, one same-segment path or one helper call binding"
-ASSUMPTIONS = ["that the labelling is the partition induced by the valve layer (graph reachability at run time) is not decided by any rule of this check",
+ASSUMPTIONS = ["that the labelling is the partition induced by the valve layer is decided on the 39 fixture graphs of R-C18-6 only (graphs of 3..7 nodes); sa/minipandas.py models the pandas "
+               "operations valve_segments uses and is part of the trusted base",
                "R-C18-1 does not decide that a COPIED label (link takes the label of its node) is non-zero; it lists those stores"]
 
 HELPERS = ("_valve_criticality", "_valve_criticality_demand", "_valve_criticality_length")
@@ -361,7 +367,204 @@ def dedup_rules(repo, chk, fn):
                expected="reads through %s" % sorted(copies), found=["line %d: %s" % (x.lineno, norm(getattr(x, "_parent", x))) for x in stale[:4]])
 
 
+# ------------------------------------------------------------------------------------------------ R-C18-6 the partition, on fixtures
+def partition_fixtures():
+    """(label, nodes, [(start, end, link name)], [(link, node) valve pairs]): hand-made corner cases plus a deterministic pseudo-random family"""
+    out = [
+        ("path, no valve", ["A", "B", "C"], [("A", "B", "L1"), ("B", "C", "L2")], []),
+        ("path, one valve in the middle", ["A", "B", "C"], [("A", "B", "L1"), ("B", "C", "L2")], [("L1", "B")]),
+        ("two components, empty layer", ["A", "B", "C", "D"], [("A", "B", "L1"), ("C", "D", "L2")], []),
+        ("two components, one valve", ["A", "B", "C", "D", "E"], [("A", "B", "L1"), ("C", "D", "L2"), ("D", "E", "L3")], [("L3", "D")]),
+        ("link with a valve at each end", ["A", "B", "C"], [("A", "B", "L1"), ("B", "C", "L2")], [("L1", "A"), ("L1", "B")]),
+        ("node with a valve on each of its links", ["A", "B", "C", "D"], [("A", "B", "L1"), ("B", "C", "L2"), ("B", "D", "L3")], [("L1", "B"), ("L2", "B"), ("L3", "B")]),
+        ("loop cut by two valves", ["A", "B", "C", "D"], [("A", "B", "L1"), ("B", "C", "L2"), ("C", "D", "L3"), ("D", "A", "L4")], [("L1", "A"), ("L3", "C")]),
+        ("loop cut by one valve only (no separation)", ["A", "B", "C"], [("A", "B", "L1"), ("B", "C", "L2"), ("C", "A", "L3")], [("L2", "B")]),
+        ("parallel links, one valved", ["A", "B", "C"], [("A", "B", "L1"), ("A", "B", "L2"), ("B", "C", "L3")], [("L1", "A")]),
+        ("parallel links, both valved at the same node", ["A", "B", "C"], [("A", "B", "L1"), ("B", "A", "L2"), ("B", "C", "L3")], [("L1", "B"), ("L2", "B")]),
+        ("duplicated valve rows", ["A", "B", "C"], [("A", "B", "L1"), ("B", "C", "L2")], [("L2", "B"), ("L2", "B"), ("L1", "A")]),
+        ("dead end behind a valve", ["A", "B", "C", "D"], [("A", "B", "L1"), ("B", "C", "L2"), ("C", "D", "L3")], [("L3", "C")]),
+        ("valve at a dead-end node", ["A", "B", "C"], [("A", "B", "L1"), ("B", "C", "L2")], [("L2", "C")]),
+        ("valves on both sides of a junction", ["A", "B", "C", "D", "E"], [("A", "B", "L1"), ("B", "C", "L2"), ("C", "D", "L3"), ("C", "E", "L4")], [("L2", "B"), ("L3", "C"), ("L1", "B")]),
+        ("isolated node without links", ["A", "B", "Z"], [("A", "B", "L1")], [("L1", "A")]),
+    ]
+    # linear congruential generator: the family is the same on every run
+    state = [20240917]
+
+    def rnd(n):
+        state[0] = (state[0] * 1103515245 + 12345) % (2 ** 31)
+        return (state[0] >> 8) % n
+    for k in range(24):
+        nn = 4 + rnd(4)
+        nodes = ["n%d" % i for i in range(nn)]
+        nl = nn - 1 + rnd(4)
+        links = []
+        for j in range(nl):
+            a = rnd(nn)
+            b = (a + 1 + rnd(nn - 1)) % nn
+            links.append((nodes[a], nodes[b], "p%d" % j))
+        valves = []
+        for (a, b, name) in links:
+            r = rnd(6)
+            if r == 0:
+                valves.append((name, a))
+            elif r == 1:
+                valves.append((name, b))
+            elif r == 2 and k % 3 == 0:
+                valves += [(name, a), (name, b)]
+        out.append(("pseudo-random #%d (%d nodes, %d links, %d valves)" % (k, nn, nl, len(valves)), nodes, links, valves))
+    return out
+
+
+def induced_partition(nodes, links, valves):
+    """reference: blocks of the elements (('N', node) / ('L', link)); a link is joined with each end node unless a valve sits on that (link, node) pair"""
+    parent = {}
+
+    def find(x):
+        parent.setdefault(x, x)
+        while parent[x] != x:
+            parent[x] = parent[parent[x]]
+            x = parent[x]
+        return x
+    for n in nodes:
+        find(("N", n))
+    vs = set(valves)
+    for a, b, name in links:
+        find(("L", name))
+        for end in (a, b):
+            if (name, end) not in vs:
+                parent[find(("L", name))] = find(("N", end))
+    blocks = {}
+    for x in list(parent):
+        blocks.setdefault(find(x), set()).add(x)
+    return sorted(map(sorted, blocks.values()))
+
+
+def partition_rules(repo, chk):
+    """R-C18-6 (T3, bounded to the fixture family): valve_segments, interpreted by sa/concrete.py on real networkx multigraphs and stand-ins for the pandas
+    objects (sa/minipandas.py), returns on every fixture (a) labels that are positive integers, (b) a labelling whose blocks ARE the partition induced by the
+    valve layer (two elements share a label iff they are connected without passing a valve), for nodes and links together, and (c) a size table with one row per
+    label holding the number of links and of nodes carrying it."""
+    import networkx as nx
+    from ..concrete import World, stdlib_overrides, Namespace, ProgramError, NDArr
+    from ..minipandas import pandas_namespace, MiniFrame, MiniSeries
+    ov, _st = stdlib_overrides()
+    npn = ov["numpy"]
+    zeros = lambda shape=None, dtype=None, **k: NDArr([0] * (shape if isinstance(shape, int) else list(shape)[0]), dtype)
+    ov["numpy"] = Namespace("numpy", **dict({k_: getattr(npn, k_) for k_ in dir(npn) if not k_.startswith("_")}, zeros=zeros))
+    ov["pandas"] = pandas_namespace()
+    ov["networkx"] = Namespace("networkx", connected_components=nx.connected_components, MultiGraph=nx.MultiGraph, MultiDiGraph=nx.MultiDiGraph, Graph=nx.Graph,
+                               number_connected_components=nx.number_connected_components, node_connected_component=nx.node_connected_component)
+    world = World(repo, ov, fuel=30000000)
+    fn = repo.func(TOPO, "valve_segments")
+    chk.fn(fn)
+    vs_ = world.function(TOPO, "valve_segments")
+    n_ok = 0
+    for label, nodes, links, valves in partition_fixtures():
+        G = nx.MultiDiGraph()
+        for n_ in nodes:
+            G.add_node(n_)
+        for a, b, name in links:
+            G.add_edge(a, b, key=name)
+        layer = MiniFrame({"link": [v[0] for v in valves], "node": [v[1] for v in valves]})
+        try:
+            res = vs_(G, layer)
+        except ProgramError as e:
+            chk.bad("R-C18-6", "valve_segments returns the induced partition [%s]" % label, loc(TOPO, fn), "the interpreted function raised on a legitimate input",
+                    expected="a labelling", found="%s (line %s)" % (e, e.lineno))
+            continue
+        if not (isinstance(res, tuple) and len(res) == 3 and isinstance(res[0], MiniSeries) and isinstance(res[1], MiniSeries) and isinstance(res[2], MiniFrame)):
+            raise ExtractError("valve_segments did not return (series, series, frame) in the interpreted world: %r" % (res,))
+        ns, ls, sizes = res
+        lab = {}
+        for k_, v in ns.items():
+            lab[("N", k_)] = v
+        for k_, v in ls.items():
+            lab[("L", k_)] = v
+        want = induced_partition(nodes, links, valves)
+        blocks = {}
+        for x, v in lab.items():
+            blocks.setdefault(v, set()).add(x)
+        got = sorted(map(sorted, blocks.values()))
+        positive = all(isinstance(v, int) and not isinstance(v, bool) and v > 0 for v in lab.values())
+        complete = set(lab) == {("N", n_) for n_ in nodes} | {("L", l_[2]) for l_ in links}
+        try:
+            sz = {r: (sizes["link"][r], sizes["node"][r]) for r in sizes.index}
+        except (KeyError, Exception) as e:          # noqa
+            sz = "size table without 'link' / 'node' columns: %s" % e
+        want_sz = {v: (len([x for x in b if x[0] == "L"]), len([x for x in b if x[0] == "N"])) for v, b in blocks.items()}
+        ok = positive and complete and got == want and sz == want_sz
+        n_ok += 1
+        chk.expect(ok, "R-C18-6", "valve_segments returns the induced partition [%s]" % label, loc(TOPO, fn),
+                   "two elements may share a segment label iff they are connected without passing a valve; labels positive; every node and link labelled; the size table counts "
+                   "the links and nodes of each label (interpreted on a real networkx multigraph, pandas replaced by sa/minipandas)",
+                   expected="blocks %s" % want, found="blocks %s%s%s%s" % (got, "" if positive else "; non-positive label", "" if complete else "; elements missing", "" if sz == want_sz else "; sizes %s instead of %s" % (sz, want_sz)))
+    chk.floor("R-C18-6", 35)
+
+
+def attribute_rules(repo, chk):
+    """R-C18-7 (T3, bounded to the fixtures of R-C18-6 that have at least one valve): valve_segment_attributes, interpreted, reports for every valve NUMBER (index labels
+    with gaps) the number of OTHER valves that bound one of the two segments it separates (a bypassed valve, both sides in one segment, bounds nothing) and the relative demand /
+    pipe length gained by merging the two segments, all three zero when both sides are the same segment.  Segment labels are those of the reference partition."""
+    import networkx as nx          # noqa: F401  (the stand-in world needs the module name only)
+    from ..concrete import World, stdlib_overrides, ProgramError
+    from ..minipandas import pandas_namespace, MiniFrame, MiniSeries
+    ov, _st = stdlib_overrides()
+    ov["pandas"] = pandas_namespace()
+    world = World(repo, ov, fuel=30000000)
+    fn = repo.func(TOPO, "valve_segment_attributes")
+    chk.fn(fn)
+    vsa = world.function(TOPO, "valve_segment_attributes")
+    n = 0
+    for label, nodes, links, valves in partition_fixtures():
+        dedup = []
+        for v in valves:
+            if v not in dedup:
+                dedup.append(v)
+        if not dedup:
+            continue
+        blocks = induced_partition(nodes, links, valves)
+        seg = {x: i + 1 for i, b in enumerate(blocks) for x in map(tuple, b)}
+        numbers = [3 * k + 2 for k in range(len(dedup))]                 # valve numbers with gaps, not starting at 0
+        layer = MiniFrame({"link": [v[0] for v in dedup], "node": [v[1] for v in dedup]}, index=numbers)
+        ns = MiniSeries([seg[("N", n_)] for n_ in nodes], nodes)
+        ls = MiniSeries([seg[("L", l_[2])] for l_ in links], [l_[2] for l_ in links])
+        dem_nodes = nodes[:-1] if len(nodes) > 2 else nodes                 # the demand table need not cover every node
+        demand = MiniSeries([0.5 * (k + 1) for k in range(len(dem_nodes))], dem_nodes)
+        length = MiniSeries([100.0 + 10.0 * k for k in range(len(links))], [l_[2] for l_ in links])
+        try:
+            res = vsa(layer, ns, ls, demand, length)
+        except ProgramError as e:
+            chk.bad("R-C18-7", "valve_segment_attributes reports surrounding valves and merge gains [%s]" % label, loc(TOPO, fn), "the interpreted function raised on a legitimate input",
+                    expected="a table indexed by valve number", found="%s (line %s)" % (e, e.lineno))
+            continue
+        if not isinstance(res, MiniFrame):
+            raise ExtractError("valve_segment_attributes did not return a frame in the interpreted world: %r" % (res,))
+        sides = {num: (seg[("L", v[0])], seg[("N", v[1])]) for num, v in zip(numbers, dedup)}
+        dsum = lambda s_: sum(d for n_, d in zip(dem_nodes, demand.values) if seg[("N", n_)] == s_)
+        lsum = lambda s_: sum(L for l_, L in zip(links, length.values) if seg[("L", l_[2])] == s_)
+        want = {}
+        for num, (a, b) in sides.items():
+            if a == b:
+                want[num] = (0, 0.0, 0.0)
+                continue
+            others = [m for m, (c, d) in sides.items() if m != num and c != d and ({c, d} & {a, b})]
+            gain = lambda x, y: 0.0 if x == 0 and y == 0 else (x + y) / max(x, y) - 1
+            want[num] = (len(others), gain(dsum(a), dsum(b)), gain(lsum(a), lsum(b)))
+        try:
+            got = {num: (res["num_surround"][num], res["demand_increase"][num], res["length_increase"][num]) for num in numbers}
+        except KeyError as e:
+            got = "row / column missing: %s (index %s, columns %s)" % (e, list(res.index), list(res.columns))
+        ok = isinstance(got, dict) and list(res.index) == numbers and all(got[m][0] == want[m][0] and abs(got[m][1] - want[m][1]) < 1e-12 and abs(got[m][2] - want[m][2]) < 1e-12 for m in numbers)
+        n += 1
+        chk.expect(ok, "R-C18-7", "valve_segment_attributes reports surrounding valves and merge gains [%s]" % label, loc(TOPO, fn),
+                   "per valve number: other non-bypassed valves with a side in one of the two segments; (D1 + D2)/max(D1, D2) - 1 for demand and length; zeros when both sides are one segment",
+                   expected=want, found=got)
+    chk.floor("R-C18-7", 25)
+
+
 def run(repo, chk):
+    partition_rules(repo, chk)
+    attribute_rules(repo, chk)
     fn = label_rules(repo, chk)
     dedup_rules(repo, chk, fn)
     size_rules(repo, chk, fn)
@@ -370,6 +573,16 @@ def run(repo, chk):
 
 
 WITNESSES = [
+    dict(name="surrounding-count-includes-the-valve-itself", file=TOPO, old="            VC_val_i = len(V_list) - 1\n", new="            VC_val_i = len(V_list)\n", rule="R-C18-7"),
+    dict(name="demand-gain-relative-to-the-smaller-side", file=TOPO, old="                VC_dem_i = (D_link + D_node) / max(D_link, D_node) - 1\n", new="                VC_dem_i = (D_link + D_node) / min(D_link, D_node) - 1\n", rule="R-C18-7"),
+    dict(name="length-gain-sums-one-side-twice", file=TOPO, old="            links_in_link_seg = link_segments[link_segments == link_seg].index\n", new="            links_in_link_seg = link_segments[link_segments == node_seg].index\n", rule="R-C18-7"),
+    dict(name="quiet-surrounding-valves-through-a-set", file=TOPO, silent=True, old="            VC_val_i = len(V_list) - 1\n", new="            VC_val_i = len(set(V_list) - {i})\n"),
+    dict(name="two-valve-link-joins-its-neighbour", file=TOPO, old="        elif link_valves.shape[0] == 2:\n            continue\n", new="        elif link_valves.shape[0] == 2:\n            seg_label[link_index] = seg_label[all_names.index('N_'+node1_name)]\n", rule="R-C18-6"),
+    dict(name="quiet-link-prelabelled-when-it-has-one-valve", file=TOPO, old="        if set(link_valves['node']) >= set([start_node, end_node]):\n", new="        if len(set(link_valves['node']) & set([start_node, end_node])) >= 1:\n", silent=True),   # the label given here to a link with ONE valve is overwritten by the last pass: same partition
+    dict(name="valved-edges-stay-in-the-graph", file=TOPO, old="    uG.remove_edges_from(valved_edges)\n", new="    pass\n", rule="R-C18-6"),
+    dict(name="empty-layer-is-one-segment", file=TOPO, old="    # First check for duplicate valves\n", new="    if len(valve_layer) == 0:\n        node_segments = pd.Series(1, index=list(G.nodes()), dtype=int)\n        link_segments = pd.Series(1, index=[k for u,v,k in G.edges(keys=True)], dtype=int)\n        return node_segments, link_segments, pd.DataFrame({'link': len(link_segments), 'node': len(node_segments)}, index=[1], dtype=int)\n    # First check for duplicate valves\n", rule="R-C18-6"),
+    dict(name="quiet-node-pass-iterates-graph-nodes", file=TOPO, silent=True, old="    for node_name in node_names:\n        node_valves = valve_layer[valve_layer['node']==node_name]\n        node_links = [k for u,v,k in uG.edges(node_name[2:], keys=True)]\n",
+         new="    for plain_name in uG.nodes():\n        node_name = 'N_' + plain_name\n        node_valves = valve_layer[valve_layer['node']==node_name]\n        node_links = [k for u,v,k in uG.edges(plain_name, keys=True)]\n"),
     dict(name="later-pass-reads-the-callers-frame", file=TOPO, old="    if valve_layer.duplicated().any():\n        valve_layer.drop_duplicates(inplace = True)\n", new="    valves = valve_layer\n    if valves.duplicated().any():\n        valves = valves.drop_duplicates()\n",
          also=[("        link_valves = valve_layer[valve_layer['link']==link_name]\n        if set(link_valves['node'])", "        link_valves = valves[valves['link']==link_name]\n        if set(link_valves['node'])")], rule="R-C18-5"),
     dict(name="layer-rebound-to-its-copy-preserving", file=TOPO, old="    if valve_layer.duplicated().any():\n        valve_layer.drop_duplicates(inplace = True)\n", new="    if valve_layer.duplicated().any():\n        valve_layer = valve_layer.drop_duplicates()\n", silent=True),
